@@ -15,5 +15,6 @@ rsync -a --delete --exclude .git --exclude replays /verif/ $VS/ || rsync -a --ex
 for id in "$@"; do
   (cd $VS && VERIF_REPO=$WT ./check $id; echo "exit=$?") 2>&1 | tail -6
 done
+if [ -n "${SAVE_REPLAYS:-}" ]; then mkdir -p "$SAVE_REPLAYS"; cp $VS/replays/*.ops "$SAVE_REPLAYS"/ 2>/dev/null || true; fi
 git -C /repo worktree remove --force $WT
 rm -rf $VS
